@@ -35,6 +35,13 @@ CHECKS = {
         technique="bounded exhaustive enumeration of inputs and evaluation histories executed against the implementation (explicit-state history exploration with per-transition probes)",
         design="DESIGN.md §4 C04",
     ),
+    "C05": dict(
+        category="exploration",
+        text="Every Unicode scalar value below U+3000 plus plane boundaries (thorough: all 1,112,064) as a one-character string, all strings up to length 3 over a hostile alphabet as values and as keys, ~6,500 boundary doubles (every power of two with neighbours, powers of ten, +-0, 2^53 neighbourhood, extremes), every JSON-like tree of depth <= 2 / width <= 2, lazily built variants and trees with a function planted at every position, each through 13 JSON-producing paths (API formats, std.manifestJson/Ex/Minified, std.toString, concatenation); the output is read by an independent strict RFC 8259 reader and compared bit-exactly, then std.parseJson must read it back to the same value.",
+        note="Trusted: the strict JSON reader in harness/src/json.rs (numbers through correctly rounded str::parse::<f64>).",
+        technique=MC_TECH + " (all scalar strings / boundary doubles / small trees x all JSON paths, read back by an independent strict parser)",
+        design="DESIGN.md §4 C05",
+    ),
     "C06": dict(
         category="exploration",
         text="Exhaustive enumeration of every token/character sequence up to a length bound, every generated program with <= k constructs printed with minimal parentheses, every short string/number/text-block literal and every single-token mutation of the repository's parser inputs; default vs legacy vs syntax-tree parser compared on each, and generated programs compared with the generator's own tree (span-erased canonical form).",
